@@ -94,6 +94,8 @@ def _quiet_numerics():
     try:
         import numpy as np
         np.seterr(all="ignore")
+        from simdag.seams.memory import own_uninitialised_memory
+        own_uninitialised_memory()
     except Exception:
         pass
     warnings.filterwarnings("ignore")
